@@ -13,118 +13,137 @@ import Golem.Model.KChain
 namespace Golem.Props.C20
 open Golem.Gen.PipeN Golem.Model
 
-variable {m : Type → Type} [Monad m]
+variable {m : Type → Type} [Monad m] [LawfulMonad m]
 
 theorem pipe2_kleisli {A B C : Type} (ab : A → m B) (bc : B → m C) (a : A) :
-    Pipe ab bc a = KChain.run (m := m) (.cons ab (.one bc)) a := rfl
+    Pipe ab bc a = KChain.run (m := m) (.cons ab (.one bc)) a := by
+  first | rfl | simp [KChain.run]
 
 theorem pipe2_pure {A B C : Type} (ab : A → B) (bc : B → C) (a : A) :
     Pipe (m := Id) ab bc a = bc (ab a) := rfl
 
 theorem pipe3_kleisli {A B C D : Type} (ab : A → m B) (bc : B → m C) (cd : C → m D) (a : A) :
-    Pipe3 ab bc cd a = KChain.run (m := m) (.cons ab (.cons bc (.one cd))) a := rfl
+    Pipe3 ab bc cd a = KChain.run (m := m) (.cons ab (.cons bc (.one cd))) a := by
+  first | rfl | simp [KChain.run]
 
 theorem pipe3_pure {A B C D : Type} (ab : A → B) (bc : B → C) (cd : C → D) (a : A) :
     Pipe3 (m := Id) ab bc cd a = cd (bc (ab a)) := rfl
 
 theorem pipe4_kleisli {A B C D E : Type} (ab : A → m B) (bc : B → m C) (cd : C → m D) (de : D → m E) (a : A) :
-    Pipe4 ab bc cd de a = KChain.run (m := m) (.cons ab (.cons bc (.cons cd (.one de)))) a := rfl
+    Pipe4 ab bc cd de a = KChain.run (m := m) (.cons ab (.cons bc (.cons cd (.one de)))) a := by
+  first | rfl | simp [KChain.run]
 
 theorem pipe4_pure {A B C D E : Type} (ab : A → B) (bc : B → C) (cd : C → D) (de : D → E) (a : A) :
     Pipe4 (m := Id) ab bc cd de a = de (cd (bc (ab a))) := rfl
 
 theorem pipe5_kleisli {A B C D E F : Type} (ab : A → m B) (bc : B → m C) (cd : C → m D) (de : D → m E) (ef : E → m F) (a : A) :
-    Pipe5 ab bc cd de ef a = KChain.run (m := m) (.cons ab (.cons bc (.cons cd (.cons de (.one ef))))) a := rfl
+    Pipe5 ab bc cd de ef a = KChain.run (m := m) (.cons ab (.cons bc (.cons cd (.cons de (.one ef))))) a := by
+  first | rfl | simp [KChain.run]
 
 theorem pipe5_pure {A B C D E F : Type} (ab : A → B) (bc : B → C) (cd : C → D) (de : D → E) (ef : E → F) (a : A) :
     Pipe5 (m := Id) ab bc cd de ef a = ef (de (cd (bc (ab a)))) := rfl
 
 theorem pipe6_kleisli {A B C D E F G : Type} (ab : A → m B) (bc : B → m C) (cd : C → m D) (de : D → m E) (ef : E → m F) (fg : F → m G) (a : A) :
-    Pipe6 ab bc cd de ef fg a = KChain.run (m := m) (.cons ab (.cons bc (.cons cd (.cons de (.cons ef (.one fg)))))) a := rfl
+    Pipe6 ab bc cd de ef fg a = KChain.run (m := m) (.cons ab (.cons bc (.cons cd (.cons de (.cons ef (.one fg)))))) a := by
+  first | rfl | simp [KChain.run]
 
 theorem pipe6_pure {A B C D E F G : Type} (ab : A → B) (bc : B → C) (cd : C → D) (de : D → E) (ef : E → F) (fg : F → G) (a : A) :
     Pipe6 (m := Id) ab bc cd de ef fg a = fg (ef (de (cd (bc (ab a))))) := rfl
 
 theorem pipe7_kleisli {A B C D E F G H : Type} (ab : A → m B) (bc : B → m C) (cd : C → m D) (de : D → m E) (ef : E → m F) (fg : F → m G) (gh : G → m H) (a : A) :
-    Pipe7 ab bc cd de ef fg gh a = KChain.run (m := m) (.cons ab (.cons bc (.cons cd (.cons de (.cons ef (.cons fg (.one gh))))))) a := rfl
+    Pipe7 ab bc cd de ef fg gh a = KChain.run (m := m) (.cons ab (.cons bc (.cons cd (.cons de (.cons ef (.cons fg (.one gh))))))) a := by
+  first | rfl | simp [KChain.run]
 
 theorem pipe7_pure {A B C D E F G H : Type} (ab : A → B) (bc : B → C) (cd : C → D) (de : D → E) (ef : E → F) (fg : F → G) (gh : G → H) (a : A) :
     Pipe7 (m := Id) ab bc cd de ef fg gh a = gh (fg (ef (de (cd (bc (ab a)))))) := rfl
 
 theorem pipe8_kleisli {A B C D E F G H I : Type} (ab : A → m B) (bc : B → m C) (cd : C → m D) (de : D → m E) (ef : E → m F) (fg : F → m G) (gh : G → m H) (hi : H → m I) (a : A) :
-    Pipe8 ab bc cd de ef fg gh hi a = KChain.run (m := m) (.cons ab (.cons bc (.cons cd (.cons de (.cons ef (.cons fg (.cons gh (.one hi)))))))) a := rfl
+    Pipe8 ab bc cd de ef fg gh hi a = KChain.run (m := m) (.cons ab (.cons bc (.cons cd (.cons de (.cons ef (.cons fg (.cons gh (.one hi)))))))) a := by
+  first | rfl | simp [KChain.run]
 
 theorem pipe8_pure {A B C D E F G H I : Type} (ab : A → B) (bc : B → C) (cd : C → D) (de : D → E) (ef : E → F) (fg : F → G) (gh : G → H) (hi : H → I) (a : A) :
     Pipe8 (m := Id) ab bc cd de ef fg gh hi a = hi (gh (fg (ef (de (cd (bc (ab a))))))) := rfl
 
 theorem pipe9_kleisli {A B C D E F G H I J : Type} (ab : A → m B) (bc : B → m C) (cd : C → m D) (de : D → m E) (ef : E → m F) (fg : F → m G) (gh : G → m H) (hi : H → m I) (ij : I → m J) (a : A) :
-    Pipe9 ab bc cd de ef fg gh hi ij a = KChain.run (m := m) (.cons ab (.cons bc (.cons cd (.cons de (.cons ef (.cons fg (.cons gh (.cons hi (.one ij))))))))) a := rfl
+    Pipe9 ab bc cd de ef fg gh hi ij a = KChain.run (m := m) (.cons ab (.cons bc (.cons cd (.cons de (.cons ef (.cons fg (.cons gh (.cons hi (.one ij))))))))) a := by
+  first | rfl | simp [KChain.run]
 
 theorem pipe9_pure {A B C D E F G H I J : Type} (ab : A → B) (bc : B → C) (cd : C → D) (de : D → E) (ef : E → F) (fg : F → G) (gh : G → H) (hi : H → I) (ij : I → J) (a : A) :
     Pipe9 (m := Id) ab bc cd de ef fg gh hi ij a = ij (hi (gh (fg (ef (de (cd (bc (ab a)))))))) := rfl
 
 theorem pipe10_kleisli {A B C D E F G H I J K : Type} (ab : A → m B) (bc : B → m C) (cd : C → m D) (de : D → m E) (ef : E → m F) (fg : F → m G) (gh : G → m H) (hi : H → m I) (ij : I → m J) (jk : J → m K) (a : A) :
-    Pipe10 ab bc cd de ef fg gh hi ij jk a = KChain.run (m := m) (.cons ab (.cons bc (.cons cd (.cons de (.cons ef (.cons fg (.cons gh (.cons hi (.cons ij (.one jk)))))))))) a := rfl
+    Pipe10 ab bc cd de ef fg gh hi ij jk a = KChain.run (m := m) (.cons ab (.cons bc (.cons cd (.cons de (.cons ef (.cons fg (.cons gh (.cons hi (.cons ij (.one jk)))))))))) a := by
+  first | rfl | simp [KChain.run]
 
 theorem pipe10_pure {A B C D E F G H I J K : Type} (ab : A → B) (bc : B → C) (cd : C → D) (de : D → E) (ef : E → F) (fg : F → G) (gh : G → H) (hi : H → I) (ij : I → J) (jk : J → K) (a : A) :
     Pipe10 (m := Id) ab bc cd de ef fg gh hi ij jk a = jk (ij (hi (gh (fg (ef (de (cd (bc (ab a))))))))) := rfl
 
 theorem pipe11_kleisli {A B C D E F G H I J K L : Type} (ab : A → m B) (bc : B → m C) (cd : C → m D) (de : D → m E) (ef : E → m F) (fg : F → m G) (gh : G → m H) (hi : H → m I) (ij : I → m J) (jk : J → m K) (kl : K → m L) (a : A) :
-    Pipe11 ab bc cd de ef fg gh hi ij jk kl a = KChain.run (m := m) (.cons ab (.cons bc (.cons cd (.cons de (.cons ef (.cons fg (.cons gh (.cons hi (.cons ij (.cons jk (.one kl))))))))))) a := rfl
+    Pipe11 ab bc cd de ef fg gh hi ij jk kl a = KChain.run (m := m) (.cons ab (.cons bc (.cons cd (.cons de (.cons ef (.cons fg (.cons gh (.cons hi (.cons ij (.cons jk (.one kl))))))))))) a := by
+  first | rfl | simp [KChain.run]
 
 theorem pipe11_pure {A B C D E F G H I J K L : Type} (ab : A → B) (bc : B → C) (cd : C → D) (de : D → E) (ef : E → F) (fg : F → G) (gh : G → H) (hi : H → I) (ij : I → J) (jk : J → K) (kl : K → L) (a : A) :
     Pipe11 (m := Id) ab bc cd de ef fg gh hi ij jk kl a = kl (jk (ij (hi (gh (fg (ef (de (cd (bc (ab a)))))))))) := rfl
 
 theorem pipe12_kleisli {A B C D E F G H I J K L M : Type} (ab : A → m B) (bc : B → m C) (cd : C → m D) (de : D → m E) (ef : E → m F) (fg : F → m G) (gh : G → m H) (hi : H → m I) (ij : I → m J) (jk : J → m K) (kl : K → m L) (lm : L → m M) (a : A) :
-    Pipe12 ab bc cd de ef fg gh hi ij jk kl lm a = KChain.run (m := m) (.cons ab (.cons bc (.cons cd (.cons de (.cons ef (.cons fg (.cons gh (.cons hi (.cons ij (.cons jk (.cons kl (.one lm)))))))))))) a := rfl
+    Pipe12 ab bc cd de ef fg gh hi ij jk kl lm a = KChain.run (m := m) (.cons ab (.cons bc (.cons cd (.cons de (.cons ef (.cons fg (.cons gh (.cons hi (.cons ij (.cons jk (.cons kl (.one lm)))))))))))) a := by
+  first | rfl | simp [KChain.run]
 
 theorem pipe12_pure {A B C D E F G H I J K L M : Type} (ab : A → B) (bc : B → C) (cd : C → D) (de : D → E) (ef : E → F) (fg : F → G) (gh : G → H) (hi : H → I) (ij : I → J) (jk : J → K) (kl : K → L) (lm : L → M) (a : A) :
     Pipe12 (m := Id) ab bc cd de ef fg gh hi ij jk kl lm a = lm (kl (jk (ij (hi (gh (fg (ef (de (cd (bc (ab a))))))))))) := rfl
 
 theorem pipe13_kleisli {A B C D E F G H I J K L M N : Type} (ab : A → m B) (bc : B → m C) (cd : C → m D) (de : D → m E) (ef : E → m F) (fg : F → m G) (gh : G → m H) (hi : H → m I) (ij : I → m J) (jk : J → m K) (kl : K → m L) (lm : L → m M) (mn : M → m N) (a : A) :
-    Pipe13 ab bc cd de ef fg gh hi ij jk kl lm mn a = KChain.run (m := m) (.cons ab (.cons bc (.cons cd (.cons de (.cons ef (.cons fg (.cons gh (.cons hi (.cons ij (.cons jk (.cons kl (.cons lm (.one mn))))))))))))) a := rfl
+    Pipe13 ab bc cd de ef fg gh hi ij jk kl lm mn a = KChain.run (m := m) (.cons ab (.cons bc (.cons cd (.cons de (.cons ef (.cons fg (.cons gh (.cons hi (.cons ij (.cons jk (.cons kl (.cons lm (.one mn))))))))))))) a := by
+  first | rfl | simp [KChain.run]
 
 theorem pipe13_pure {A B C D E F G H I J K L M N : Type} (ab : A → B) (bc : B → C) (cd : C → D) (de : D → E) (ef : E → F) (fg : F → G) (gh : G → H) (hi : H → I) (ij : I → J) (jk : J → K) (kl : K → L) (lm : L → M) (mn : M → N) (a : A) :
     Pipe13 (m := Id) ab bc cd de ef fg gh hi ij jk kl lm mn a = mn (lm (kl (jk (ij (hi (gh (fg (ef (de (cd (bc (ab a)))))))))))) := rfl
 
 theorem pipe14_kleisli {A B C D E F G H I J K L M N O : Type} (ab : A → m B) (bc : B → m C) (cd : C → m D) (de : D → m E) (ef : E → m F) (fg : F → m G) (gh : G → m H) (hi : H → m I) (ij : I → m J) (jk : J → m K) (kl : K → m L) (lm : L → m M) (mn : M → m N) (no : N → m O) (a : A) :
-    Pipe14 ab bc cd de ef fg gh hi ij jk kl lm mn no a = KChain.run (m := m) (.cons ab (.cons bc (.cons cd (.cons de (.cons ef (.cons fg (.cons gh (.cons hi (.cons ij (.cons jk (.cons kl (.cons lm (.cons mn (.one no)))))))))))))) a := rfl
+    Pipe14 ab bc cd de ef fg gh hi ij jk kl lm mn no a = KChain.run (m := m) (.cons ab (.cons bc (.cons cd (.cons de (.cons ef (.cons fg (.cons gh (.cons hi (.cons ij (.cons jk (.cons kl (.cons lm (.cons mn (.one no)))))))))))))) a := by
+  first | rfl | simp [KChain.run]
 
 theorem pipe14_pure {A B C D E F G H I J K L M N O : Type} (ab : A → B) (bc : B → C) (cd : C → D) (de : D → E) (ef : E → F) (fg : F → G) (gh : G → H) (hi : H → I) (ij : I → J) (jk : J → K) (kl : K → L) (lm : L → M) (mn : M → N) (no : N → O) (a : A) :
     Pipe14 (m := Id) ab bc cd de ef fg gh hi ij jk kl lm mn no a = no (mn (lm (kl (jk (ij (hi (gh (fg (ef (de (cd (bc (ab a))))))))))))) := rfl
 
 theorem pipe15_kleisli {A B C D E F G H I J K L M N O P : Type} (ab : A → m B) (bc : B → m C) (cd : C → m D) (de : D → m E) (ef : E → m F) (fg : F → m G) (gh : G → m H) (hi : H → m I) (ij : I → m J) (jk : J → m K) (kl : K → m L) (lm : L → m M) (mn : M → m N) (no : N → m O) (op : O → m P) (a : A) :
-    Pipe15 ab bc cd de ef fg gh hi ij jk kl lm mn no op a = KChain.run (m := m) (.cons ab (.cons bc (.cons cd (.cons de (.cons ef (.cons fg (.cons gh (.cons hi (.cons ij (.cons jk (.cons kl (.cons lm (.cons mn (.cons no (.one op))))))))))))))) a := rfl
+    Pipe15 ab bc cd de ef fg gh hi ij jk kl lm mn no op a = KChain.run (m := m) (.cons ab (.cons bc (.cons cd (.cons de (.cons ef (.cons fg (.cons gh (.cons hi (.cons ij (.cons jk (.cons kl (.cons lm (.cons mn (.cons no (.one op))))))))))))))) a := by
+  first | rfl | simp [KChain.run]
 
 theorem pipe15_pure {A B C D E F G H I J K L M N O P : Type} (ab : A → B) (bc : B → C) (cd : C → D) (de : D → E) (ef : E → F) (fg : F → G) (gh : G → H) (hi : H → I) (ij : I → J) (jk : J → K) (kl : K → L) (lm : L → M) (mn : M → N) (no : N → O) (op : O → P) (a : A) :
     Pipe15 (m := Id) ab bc cd de ef fg gh hi ij jk kl lm mn no op a = op (no (mn (lm (kl (jk (ij (hi (gh (fg (ef (de (cd (bc (ab a)))))))))))))) := rfl
 
 theorem pipe16_kleisli {A B C D E F G H I J K L M N O P Q : Type} (ab : A → m B) (bc : B → m C) (cd : C → m D) (de : D → m E) (ef : E → m F) (fg : F → m G) (gh : G → m H) (hi : H → m I) (ij : I → m J) (jk : J → m K) (kl : K → m L) (lm : L → m M) (mn : M → m N) (no : N → m O) (op : O → m P) (pq : P → m Q) (a : A) :
-    Pipe16 ab bc cd de ef fg gh hi ij jk kl lm mn no op pq a = KChain.run (m := m) (.cons ab (.cons bc (.cons cd (.cons de (.cons ef (.cons fg (.cons gh (.cons hi (.cons ij (.cons jk (.cons kl (.cons lm (.cons mn (.cons no (.cons op (.one pq)))))))))))))))) a := rfl
+    Pipe16 ab bc cd de ef fg gh hi ij jk kl lm mn no op pq a = KChain.run (m := m) (.cons ab (.cons bc (.cons cd (.cons de (.cons ef (.cons fg (.cons gh (.cons hi (.cons ij (.cons jk (.cons kl (.cons lm (.cons mn (.cons no (.cons op (.one pq)))))))))))))))) a := by
+  first | rfl | simp [KChain.run]
 
 theorem pipe16_pure {A B C D E F G H I J K L M N O P Q : Type} (ab : A → B) (bc : B → C) (cd : C → D) (de : D → E) (ef : E → F) (fg : F → G) (gh : G → H) (hi : H → I) (ij : I → J) (jk : J → K) (kl : K → L) (lm : L → M) (mn : M → N) (no : N → O) (op : O → P) (pq : P → Q) (a : A) :
     Pipe16 (m := Id) ab bc cd de ef fg gh hi ij jk kl lm mn no op pq a = pq (op (no (mn (lm (kl (jk (ij (hi (gh (fg (ef (de (cd (bc (ab a))))))))))))))) := rfl
 
 theorem pipe17_kleisli {A B C D E F G H I J K L M N O P Q R : Type} (ab : A → m B) (bc : B → m C) (cd : C → m D) (de : D → m E) (ef : E → m F) (fg : F → m G) (gh : G → m H) (hi : H → m I) (ij : I → m J) (jk : J → m K) (kl : K → m L) (lm : L → m M) (mn : M → m N) (no : N → m O) (op : O → m P) (pq : P → m Q) (qr : Q → m R) (a : A) :
-    Pipe17 ab bc cd de ef fg gh hi ij jk kl lm mn no op pq qr a = KChain.run (m := m) (.cons ab (.cons bc (.cons cd (.cons de (.cons ef (.cons fg (.cons gh (.cons hi (.cons ij (.cons jk (.cons kl (.cons lm (.cons mn (.cons no (.cons op (.cons pq (.one qr))))))))))))))))) a := rfl
+    Pipe17 ab bc cd de ef fg gh hi ij jk kl lm mn no op pq qr a = KChain.run (m := m) (.cons ab (.cons bc (.cons cd (.cons de (.cons ef (.cons fg (.cons gh (.cons hi (.cons ij (.cons jk (.cons kl (.cons lm (.cons mn (.cons no (.cons op (.cons pq (.one qr))))))))))))))))) a := by
+  first | rfl | simp [KChain.run]
 
 theorem pipe17_pure {A B C D E F G H I J K L M N O P Q R : Type} (ab : A → B) (bc : B → C) (cd : C → D) (de : D → E) (ef : E → F) (fg : F → G) (gh : G → H) (hi : H → I) (ij : I → J) (jk : J → K) (kl : K → L) (lm : L → M) (mn : M → N) (no : N → O) (op : O → P) (pq : P → Q) (qr : Q → R) (a : A) :
     Pipe17 (m := Id) ab bc cd de ef fg gh hi ij jk kl lm mn no op pq qr a = qr (pq (op (no (mn (lm (kl (jk (ij (hi (gh (fg (ef (de (cd (bc (ab a)))))))))))))))) := rfl
 
 theorem pipe18_kleisli {A B C D E F G H I J K L M N O P Q R S : Type} (ab : A → m B) (bc : B → m C) (cd : C → m D) (de : D → m E) (ef : E → m F) (fg : F → m G) (gh : G → m H) (hi : H → m I) (ij : I → m J) (jk : J → m K) (kl : K → m L) (lm : L → m M) (mn : M → m N) (no : N → m O) (op : O → m P) (pq : P → m Q) (qr : Q → m R) (rs : R → m S) (a : A) :
-    Pipe18 ab bc cd de ef fg gh hi ij jk kl lm mn no op pq qr rs a = KChain.run (m := m) (.cons ab (.cons bc (.cons cd (.cons de (.cons ef (.cons fg (.cons gh (.cons hi (.cons ij (.cons jk (.cons kl (.cons lm (.cons mn (.cons no (.cons op (.cons pq (.cons qr (.one rs)))))))))))))))))) a := rfl
+    Pipe18 ab bc cd de ef fg gh hi ij jk kl lm mn no op pq qr rs a = KChain.run (m := m) (.cons ab (.cons bc (.cons cd (.cons de (.cons ef (.cons fg (.cons gh (.cons hi (.cons ij (.cons jk (.cons kl (.cons lm (.cons mn (.cons no (.cons op (.cons pq (.cons qr (.one rs)))))))))))))))))) a := by
+  first | rfl | simp [KChain.run]
 
 theorem pipe18_pure {A B C D E F G H I J K L M N O P Q R S : Type} (ab : A → B) (bc : B → C) (cd : C → D) (de : D → E) (ef : E → F) (fg : F → G) (gh : G → H) (hi : H → I) (ij : I → J) (jk : J → K) (kl : K → L) (lm : L → M) (mn : M → N) (no : N → O) (op : O → P) (pq : P → Q) (qr : Q → R) (rs : R → S) (a : A) :
     Pipe18 (m := Id) ab bc cd de ef fg gh hi ij jk kl lm mn no op pq qr rs a = rs (qr (pq (op (no (mn (lm (kl (jk (ij (hi (gh (fg (ef (de (cd (bc (ab a))))))))))))))))) := rfl
 
 theorem pipe19_kleisli {A B C D E F G H I J K L M N O P Q R S T : Type} (ab : A → m B) (bc : B → m C) (cd : C → m D) (de : D → m E) (ef : E → m F) (fg : F → m G) (gh : G → m H) (hi : H → m I) (ij : I → m J) (jk : J → m K) (kl : K → m L) (lm : L → m M) (mn : M → m N) (no : N → m O) (op : O → m P) (pq : P → m Q) (qr : Q → m R) (rs : R → m S) (st : S → m T) (a : A) :
-    Pipe19 ab bc cd de ef fg gh hi ij jk kl lm mn no op pq qr rs st a = KChain.run (m := m) (.cons ab (.cons bc (.cons cd (.cons de (.cons ef (.cons fg (.cons gh (.cons hi (.cons ij (.cons jk (.cons kl (.cons lm (.cons mn (.cons no (.cons op (.cons pq (.cons qr (.cons rs (.one st))))))))))))))))))) a := rfl
+    Pipe19 ab bc cd de ef fg gh hi ij jk kl lm mn no op pq qr rs st a = KChain.run (m := m) (.cons ab (.cons bc (.cons cd (.cons de (.cons ef (.cons fg (.cons gh (.cons hi (.cons ij (.cons jk (.cons kl (.cons lm (.cons mn (.cons no (.cons op (.cons pq (.cons qr (.cons rs (.one st))))))))))))))))))) a := by
+  first | rfl | simp [KChain.run]
 
 theorem pipe19_pure {A B C D E F G H I J K L M N O P Q R S T : Type} (ab : A → B) (bc : B → C) (cd : C → D) (de : D → E) (ef : E → F) (fg : F → G) (gh : G → H) (hi : H → I) (ij : I → J) (jk : J → K) (kl : K → L) (lm : L → M) (mn : M → N) (no : N → O) (op : O → P) (pq : P → Q) (qr : Q → R) (rs : R → S) (st : S → T) (a : A) :
     Pipe19 (m := Id) ab bc cd de ef fg gh hi ij jk kl lm mn no op pq qr rs st a = st (rs (qr (pq (op (no (mn (lm (kl (jk (ij (hi (gh (fg (ef (de (cd (bc (ab a)))))))))))))))))) := rfl
 
 theorem pipe20_kleisli {A B C D E F G H I J K L M N O P Q R S T U : Type} (ab : A → m B) (bc : B → m C) (cd : C → m D) (de : D → m E) (ef : E → m F) (fg : F → m G) (gh : G → m H) (hi : H → m I) (ij : I → m J) (jk : J → m K) (kl : K → m L) (lm : L → m M) (mn : M → m N) (no : N → m O) (op : O → m P) (pq : P → m Q) (qr : Q → m R) (rs : R → m S) (st : S → m T) (tu : T → m U) (a : A) :
-    Pipe20 ab bc cd de ef fg gh hi ij jk kl lm mn no op pq qr rs st tu a = KChain.run (m := m) (.cons ab (.cons bc (.cons cd (.cons de (.cons ef (.cons fg (.cons gh (.cons hi (.cons ij (.cons jk (.cons kl (.cons lm (.cons mn (.cons no (.cons op (.cons pq (.cons qr (.cons rs (.cons st (.one tu)))))))))))))))))))) a := rfl
+    Pipe20 ab bc cd de ef fg gh hi ij jk kl lm mn no op pq qr rs st tu a = KChain.run (m := m) (.cons ab (.cons bc (.cons cd (.cons de (.cons ef (.cons fg (.cons gh (.cons hi (.cons ij (.cons jk (.cons kl (.cons lm (.cons mn (.cons no (.cons op (.cons pq (.cons qr (.cons rs (.cons st (.one tu)))))))))))))))))))) a := by
+  first | rfl | simp [KChain.run]
 
 theorem pipe20_pure {A B C D E F G H I J K L M N O P Q R S T U : Type} (ab : A → B) (bc : B → C) (cd : C → D) (de : D → E) (ef : E → F) (fg : F → G) (gh : G → H) (hi : H → I) (ij : I → J) (jk : J → K) (kl : K → L) (lm : L → M) (mn : M → N) (no : N → O) (op : O → P) (pq : P → Q) (qr : Q → R) (rs : R → S) (st : S → T) (tu : T → U) (a : A) :
     Pipe20 (m := Id) ab bc cd de ef fg gh hi ij jk kl lm mn no op pq qr rs st tu a = tu (st (rs (qr (pq (op (no (mn (lm (kl (jk (ij (hi (gh (fg (ef (de (cd (bc (ab a))))))))))))))))))) := rfl
